@@ -10,4 +10,6 @@ def check(ctx: Ctx) -> None:
     CT.r_tokens(ctx, "R17.5")
     CT.r_fresh_conversion(ctx, "R17.6")
     CT.r_async_declared(ctx, "R17.7")
+    # the reply line is what the command wrote, nothing substituted on the way out (an empty str() stays empty)
+    CT.r_listen_loop(ctx, "R17.8")
     CT.r_annotation_kinds(ctx, "R16.3")
